@@ -58,7 +58,10 @@ def _isa_case(draw):
     else:
         d = draw(st.floats(-37400.0, 37400.0))
     h = min(36000.0, max(-1400.0, a0 + d))
-    return {"a0": a0, "h": h, "unit": draw(st.sampled_from(ref.UNITS_BY_DIM["distance"]))}
+    return {"a0": a0, "h": h, "unit": draw(st.sampled_from(ref.UNITS_BY_DIM["distance"])),
+            # history: the same bare number under two preferred distance units, one after the other
+            "bare": draw(st.one_of(st.none(), st.floats(-400.0, 10000.0))),
+            "bare_units": draw(st.permutations(["Foot", "Yard", "Meter"]))[:2]}
 
 
 def check_isa(case):
@@ -106,6 +109,22 @@ def check_isa(case):
     if d0 != st0.density_ratio or abs(m0 - (st0.mach >> pb.Velocity.FPS)) > 4 * math.ulp(m0):
         r.bad("C08:station-altitude-not-own-values", f"query at the station altitude {a0!r} ft returns ({d0!r}, {m0!r}), "
               f"station has ({st0.density_ratio!r}, {st0.mach >> pb.Velocity.FPS!r})")
+    if case.get("bare") is not None and not r.violations:
+        v = case["bare"]
+        for un in case["bare_units"]:
+            pb.PreferredUnits.distance = Unit[un]
+            hb = ref.convert(v, un, "Foot")
+            atb = pb.Atmo.icao(v)          # a bare number: v in the unit preferred right now
+            tb, pb_, rhob, ab = ref.isa(hb * FT)
+            for name, g, w in (("temperature", atb.temperature >> pb.Temperature.Kelvin, tb), ("pressure", atb.pressure >> pb.Pressure.hPa, pb_ / 100.0),
+                               ("density_ratio", atb.density_ratio, rhob / 1.225), ("speed_of_sound", atb.mach >> pb.Velocity.MPS, ab)):
+                if not _rel(g, w) <= REL:
+                    r.bad(f"C08:isa:bare-altitude:{name}", f"Atmo.icao({v!r}) with distance preferred in {un} ({hb!r} ft): {name} = {g!r}, ISA {w!r}")
+                    break
+            if r.violations:
+                break
+        pb.PreferredUnits.defaults()
+        r.label("bare-altitude-two-units")
     r.nontrivial = abs(h - a0) > 30.0
     r.label("d<30" if abs(h - a0) < 30 else "d>=30")
     return r
